@@ -72,6 +72,23 @@ def c20clone : Handler :=
     Pred.C20.pred
     (fun x => Pred.C01.wfP x.p)
 
+
+/-- `c01.reuse  <packet> <prev bytes> => res (len(h.Extensions), len(h.CSRC))` : the RAW lengths of
+    the two slice fields of a receiver that decoded `prev` first and then Marshal(packet).  "Equal in
+    every extension id and value" includes that no element of the EARLIER packet survives in the
+    exported `Extensions` field, also while the X flag is clear (where the accessors hide it). -/
+def c01reuse : Handler :=
+  mkHandler (do let p ← rdPacket; let prev ← Rd.bytes; pure (p, prev))
+    (Rd.res (do let a ← Rd.nat; let b ← Rd.nat; pure (a, b)))
+    (fun (p, prev) =>
+      let dirty : Packet := match pktUnmarshal {} prev with | .ok q => q | _ => {}
+      match pktMarshal p with
+      | .ok bs => (pktUnmarshal dirty bs).map (fun q => (q.header.exts.length, q.header.csrc.length))
+      | _ => .err .other)
+    (fun (p, _) o => !Pred.C01.wfP p ||
+      o == .ok ((if p.header.extension then p.header.exts.length else 0), p.header.csrc.length))
+    (fun (p, _) => Pred.C01.wfP p)
+
 def handlers : List (String × Handler) :=
-  [("c01.rt", c01rt), ("c04.to", c04to), ("c20.clone", c20clone)]
+  [("c01.reuse", c01reuse), ("c01.rt", c01rt), ("c04.to", c04to), ("c20.clone", c20clone)]
 end Rtp.Kinds.CoreA
